@@ -9,7 +9,7 @@ use std::collections::HashMap;
 pub fn enum_audits(_s: u64) -> Vec<String> {
     ["chars :: axiom_not_ws axiom_blank_is_ws axiom_space_is_ws axiom_ws_is_not_a_symbol char::is_ascii_digit",
      "trim :: str::trim is_trim_of minimal axiom_trim_idempotent",
-     "cmp :: String::cmp axiom_str_cmp_laws String==str axiom_str_ext axiom_string_eq",
+     "cmp :: String::cmp axiom_str_cmp_laws String==str axiom_str_ext axiom_string_eq axiom_string_eq_strref axiom_strref_eq_string",
      "strops :: str_is_empty String::len str_skip_first_byte str_starts_with_string str_contains_char str_ends_with_char Chars::last str_to_chars chars_to_string axiom_string_add_assign",
      "hashmap :: axiom_kb_lookup axiom_kb_one_value",
      "floats :: i64_to_f64 axiom_f64_arith_is_a_function axiom_f64_eq_sym axiom_f64_cmp_converse",
@@ -85,6 +85,8 @@ pub fn check_audit(case: &str) -> Result<(), String> {
                     let lex = a.chars().collect::<Vec<char>>().cmp(&b.chars().collect::<Vec<char>>());
                     if o != lex { return Err(format!("cmp({:?}, {:?}) = {:?}, code-point order gives {:?}", a, b, o, lex)); }
                     if (*a == *b.as_str()) != a.chars().eq(b.chars()) { return Err(format!("String == str on {:?}, {:?}", a, b)); }
+                    // String == &str and &str == String (spec/std_eq.rs axiom_string_eq_strref, axiom_strref_eq_string)
+                    { let bs: &str = b.as_str(); if (*a == bs) != a.chars().eq(b.chars()) || (bs == *a) != a.chars().eq(b.chars()) { return Err(format!("String == &str on {:?}, {:?}", a, b)); } }
                     // `==` on two &String (blanket impl for references; spec/std_eq.rs axiom_string_eq)
                     { let (ra, rb): (&String, &String) = (a, b); if (ra == rb) != a.chars().eq(b.chars()) || ra.eq(rb) != (ra == rb) { return Err(format!("&String == &String on {:?}, {:?}", a, b)); } }
                 }
